@@ -340,7 +340,7 @@ fn chan_race(cap: usize, p: u8) {
     sent[cap] = x;
     unsafe {
         RACE_AT = kani::any();
-        kani::assume(RACE_AT <= 3);
+        kani::assume(RACE_AT <= 5);
         RACE_POINT = 0;
         RACE_FIRED = false;
         RACE_ARMED = true;
